@@ -21,6 +21,8 @@ SCHED_FLAGS = "--cfg graaf_verif --cfg graaf_verif_shuttle"
 # runs per (property, tier) for the shuttle engine; fixed counts (never a time
 # box) so that one VERIF_SEED always denotes the same set of runs
 PLAN = {
+    "C11": {"quick": 4000, "thorough": 60000},
+    "C12": {"quick": 6000, "thorough": 80000},
     "C17": {"quick": 24000, "thorough": 160000},
 }
 
@@ -238,21 +240,18 @@ def triage(binary, pid, violations, seed):
             minp = os.path.join(REPLAYS, "%s-seed%d-%s-min.json" % (pid, seed, sig_id(sig)))
             m = subprocess.run([binary, "minimise", replay, minp, "--budget", "2000"], env=env,
                                stdout=subprocess.PIPE, stderr=subprocess.DEVNULL, text=True)
-            if m.returncode == 0 and os.path.exists(minp):
-                r = subprocess.run([binary, "replay", minp], env=env, stdout=subprocess.PIPE,
-                                   stderr=subprocess.DEVNULL, text=True)
-                if r.returncode == 1 and "REPRODUCED" in r.stdout:
-                    replay = minp
-                else:
-                    log("HARNESS-ERROR minimised replay %s did not reproduce (rc=%s)" % (minp, r.returncode))
-                    harness_error = True
+            cand = minp if (m.returncode == 0 and os.path.exists(minp)) else replay
+            r = subprocess.run([binary, "replay", cand], env=env, stdout=subprocess.PIPE,
+                               stderr=subprocess.DEVNULL, text=True)
+            killed = sig == "process_killed"
+            # a replay that kills the process counts as reproduced for every class: undefined behaviour
+            # may answer wrongly in one process and crash in the next, and neither is acceptable
+            ok = (r.returncode < 0) or (not killed and r.returncode == 1 and "REPRODUCED" in r.stdout)
+            if ok:
+                replay = cand
             else:
-                # minimisation failed: confirm the raw replay instead
-                r = subprocess.run([binary, "replay", replay], env=env, stdout=subprocess.PIPE,
-                                   stderr=subprocess.DEVNULL, text=True)
-                if not (r.returncode == 1 and "REPRODUCED" in r.stdout):
-                    log("HARNESS-ERROR replay %s did not reproduce (rc=%s)" % (replay, r.returncode))
-                    harness_error = True
+                log("HARNESS-ERROR replay %s did not reproduce (rc=%s)" % (cand, r.returncode))
+                harness_error = True
         entry = {"signature": sig, "count": len(vs), "replay": replay, "detail": first["detail"][:600],
                  "first_run_index": first["run_index"]}
         hit = next((k for k in known if k.get("signature") == sig), None)
